@@ -44,6 +44,8 @@ INPUT_TYPE = "(bool * list op)"
 ALL_REPAIRS = ("prune-weights", "prune-queries", "skip-zero-function")
 X0 = ("PVar", 0)
 ZX0 = ("PScalL", 0, ("PVar", 0))
+CX0a = ("PSub", ("PAdd", ("PVar", 0), ("PVar", 1)), ("PVar", 1))
+CX0b = ("PSub", ("PVar", 1), ("PSub", ("PVar", 1), ("PVar", 0)))
 
 
 # ---------------------------------------------------------------------------------------------- exhaustive universes
@@ -84,6 +86,9 @@ def exhaustive_cases(tier):
         cases.append((universe(False, True, [(0, -1), (1, 0.5)]), body, "guarded"))
         cases.append((universe(False, False, [(0, 2), (1, 1)]), body, "guarded"))
         cases.append((universe(True, True, [(1, 1), (0, -4)]), body, "guarded"))
+    # query points that RETURN to x0 through the Point algebra: (x0 + x1) - x1 and x1 - (x1 - x0)
+    for body in sequences(alphabet([X0, CX0a]), 2) + sequences(alphabet([CX0a, CX0b], reduced=True), 2):
+        cases.append((universe(True, False, [(0, 1), (1, 2)]) + [("NewPoint",)], body, "guarded"))
     # cancelling weights are pruned by Function.__add__ (repaired F-C07a): f0 + f1 - f1 is an ordinary composite
     c_len = 2 if tier == "quick" else 3
     for r0 in (True, False):
@@ -207,7 +212,20 @@ class Gen(object):
         rng = self.rng
         npts = self.w.n_points()
         for _ in range(30):
-            if self.pool and rng.random() < 0.65:
+            r0 = rng.random()
+            if self.pool and r0 < 0.3:
+                # the real Point algebra with CANCELLATION: + / - chains that return to an earlier point
+                t = rng.choice(self.pool)
+                u = T.gen_point(rng, rng.choice([0, 0, 1]), npts)
+                c = rng.choice([2, -1, 0.5, 4])
+                t = rng.choice([("PSub", ("PAdd", t, u), u),                       # (x + d) - d
+                                ("PSub", u, ("PSub", u, t)),                       # x1 - (x1 - x)
+                                ("PAdd", ("PAdd", t, ("PScalL", c, u)), ("PNeg", ("PScalL", c, u))),
+                                ("PAdd", ("PSub", t, u), u),
+                                ("PSub", ("PSub", t, ("PNeg", u)), u),
+                                ("PAdd", t, ("PSub", u, u)),
+                                ("PSub", ("PScalL", 2, t), t)])
+            elif self.pool and r0 < 0.65:
                 t = rng.choice(self.pool)
                 if t[0] == "PAdd" and rng.random() < 0.5:
                     t = ("PAdd", t[2], t[1])          # equal decomposition, other insertion order
@@ -215,12 +233,12 @@ class Gen(object):
                 t = T.gen_point(rng, rng.choice([0, 0, 1, 1, 2]), npts)
             if self.profile == "zero" and rng.random() < 0.2:
                 t = rng.choice([("PScalL", 0, t), ("PScalR", t, 0), ("PScalL", 0.0, t)])
-            d = self.w.build_point(t).decomposition_dict
-            if self.profile == "guarded" and any(v == 0 for v in d.values()):
+            d = FL.ref_pdict(t)          # decided on the specified decomposition, never on what the code built
+            if self.profile == "guarded" and any(v == 0 for _, v in d):
                 continue
-            if any(abs(to_fraction(v)) > 4096 or to_fraction(v).denominator > 4096 for v in d.values()):
+            if any(abs(v) > 4096 or v.denominator > 4096 for _, v in d):
                 continue
-            if t not in self.pool:
+            if t not in self.pool and T.size(t) <= 6:
                 self.pool.append(t)
             return t
         return X0
@@ -359,7 +377,9 @@ def has_zero_query(ops):
         w = FL.World()
         for op in ops:
             if op[0] in ("Oracle", "Gradient", "Value"):
-                if any(v == 0 for v in w.build_point(op[2]).decomposition_dict.values()):
+                # by the REFERENCE decomposition of what was written (a final scaling by 0), not by what the
+                # implementation built: a zero left behind by a + or - is not this finding's trigger
+                if any(v == 0 for _, v in FL.ref_pdict(op[2])):
                     return True
             w.apply(op)
     except Exception:
